@@ -7,10 +7,11 @@ Python                                         Lean
 partition `(self.name, i)`                     `List α`; a bag = `List (List α)`, `den = flatten`
 `no_result` sentinel                           `Option.none`
 `partition_all(split_every, range(k))`         `partitionAll` (fuel = length; take/drop)
-`while k > split_every` loop                   `loopIx` with fuel; `none` = never returns (split_every = 1)
+`while k > split_every` loop                   `loopIx` with fuel (`none` = fuel exhausted: cannot happen behind the guard)
 key names `(fmt+str(depth), i)`, `(fmt, 0)`    the indices `(depth, i)` passed to the aggregate (so that a
                                                randomised aggregate can use different draws per task)
-UnboundLocalError for split_every ≤ 0 < k      `none`
+ValueError("split_every must be an integer >= 2") for `split_every < 2` and `split_every < npartitions`
+(repair ec8607a; before: endless loop / UnboundLocalError)   `none`
 Import-free (linked into the native driver).
 -/
 namespace Dask.BagReduce
@@ -43,11 +44,11 @@ def perPartitionIx (perpart : Nat → List α → β) (parts : List (List α)) :
   let isLast := parts.length == 1
   parts.zipIdx.map fun pi => if !isLast && pi.1.isEmpty then none else some (perpart pi.2 pi.1)
 
-/-- `Bag.reduction(perpartition, aggregate, split_every)` with task indices; `none` = no value
-    (graph construction never returns for `split_every = 1 < npartitions`, raises for `split_every = 0`) -/
+/-- `Bag.reduction(perpartition, aggregate, split_every)` with task indices; `none` = ValueError
+    (`split_every < 2` and `split_every < npartitions`) -/
 def reductionIx (perpart : Nat → List α → β) (agg : Nat → Nat → List β → β) (se : Nat)
     (parts : List (List α)) : Option β :=
-  if se = 0 ∧ 0 < parts.length then none
+  if se < 2 ∧ se < parts.length then none
   else (loopIx agg se (parts.length + 1) 0 (perPartitionIx perpart parts)).map
     fun dy => agg dy.1 0 (dy.2.filterMap id)
 
